@@ -73,8 +73,19 @@ def _len_upper(cons):
     return ub
 
 
+def macros_rule(ctx, F):
+    from .. import witness
+    ctx.rule("C16.macros", "every form of polygon! / multipatch! (expanded in a witness crate built against this tree) calls the "
+                           "ring-closing constructors and puts every coordinate literal into the field it was written for (struct "
+                           "and tuple forms, XY / XYM / XYZM); PointX::new binds its parameters in field order", floor=17)
+    witness.macro_witnesses(ctx, "C16.macros")
+    witness.macro_bindings(ctx, "C16.macros", F)
+
+
 def run(ctx):
     F = ctx.facts("default")
+    if not getattr(ctx, "is_sub", False):
+        macros_rule(ctx, F)
     ctx.rule("C16.route", "every public constructor of GenericPolygon passes every ring through close_and_reorder (closing, then "
                           "orienting) before the box is computed and the polygon is built", floor=2)
     ctx.rule("C16.close", "closing appends exactly one copy of the first vertex, and only when the ring is not already closed "
